@@ -11,3 +11,6 @@ for f in sorted(glob.glob('evidence/*.json')):
     c = e['coverage']
     print(f, 'ok', e['tier'], 'obl', c.get('obligations'), 'dis', c.get('discharged'), 'eval', c.get('evaluations'), 'dnt', c.get('distinct_nontrivial'), 'viol', e.get('violations'), 'wall', e['wall_s'])
 E
+# the source pin must describe the committed /repo tree (re-pin after every fix: /venv/bin/python tools/pin_source.py write)
+n=$(/venv/bin/python tools/pin_source.py diff | wc -l)
+if [ "$n" != "0" ]; then echo "WARNING: pins/source_functions.json differs from /repo in $n functions (stale pin or modified tree)"; fi
